@@ -367,11 +367,9 @@ func (w *Worker) runPath(fn *ssa.Function, prefix []Decision) {
 	if e.Cfg.ConcreteClock {
 		p.clock = BV(64, 1<<40)
 	} else {
-		p.clock = p.freshVar("clock", 64)
-		// keep the clock well inside the positive int64 range so that deadline
-		// arithmetic cannot wrap
-		p.assume(Cmp(OpUle, BV(64, 1<<40), p.clock))
-		p.assume(Cmp(OpUle, p.clock, BV(64, 1<<41)))
+		p.clock = p.freshVar("clock", IntW)
+		p.assume(Cmp(OpSle, IntC(1<<40), p.clock))
+		p.assume(Cmp(OpSle, p.clock, IntC(1<<41)))
 	}
 	main := p.newThread()
 	p.cur = main
